@@ -11,7 +11,7 @@ RULE = ("seeded designs (weights, exclusions with and without complete crossing,
         "RandomGen, CMSGen, UniGen, SMGen under the virtual-clock world) has exactly that many entries for every factor; "
         "non-trivial = constructor accepted, no documentation gap, >=1 sequence returned; distinct = (design skeleton, T)")
 ASSUMPTIONS = ["reference trial-count arithmetic (sim/refsem.py B.2-B.4) reads the documentation correctly"]
-BUDGET = {"quick": 40, "thorough": 900}
+BUDGET = {"quick": 300, "thorough": 900}
 RUNS = {"quick": 3000, "thorough": 450000}
 STRATS = ["IterateSATGen", "RandomGen", "CMSGen", "UniGen", "SMGen"]
 
